@@ -26,9 +26,28 @@ fn run(cfg: &str, seed: u64, steps: usize, nlabels: u64, par: bool, rt: &tokio::
     }
 }
 
+fn run_retry(cfg: &str, rt: &tokio::runtime::Runtime, out: &mut Vec<Failure>) {
+    let r = if cfg == "whatsapp_v1" {
+        rt.block_on(akd::vx_export::c01_retry_after_interrupted_commit::<WhatsAppV1Configuration>())
+    } else {
+        rt.block_on(akd::vx_export::c01_retry_after_interrupted_commit::<ExperimentalConfiguration<ExampleLabel>>())
+    };
+    if let Ok(Some(what)) = r {
+        out.push(Failure {
+            clause: "replay/c01#retry_after_interrupted_commit".into(),
+            case: vec!["c01".into(), "retry".into(), cfg.into()],
+            input: format!("[{cfg}] epoch 1 = {{a,b}}; publish {{a:2,c}} whose epoch record never reaches storage; a new instance retries the same batch"),
+            expected: "the retry creates epoch 2 with the canonical root of the history".into(),
+            observed: what,
+            finding_id: None,
+        });
+    }
+}
+
 pub fn search(seed: u64, full: bool, rt: &tokio::runtime::Runtime) -> SearchResult {
     let mut out = vec![];
     let mut n = 0;
+    for cfg in ["whatsapp_v1", "experimental"] { run_retry(cfg, rt, &mut out); n += 1; }
     let (hist, steps) = if full { (24u64, 30usize) } else { (6, 16) };
     for cfg in ["whatsapp_v1", "experimental"] {
         for h in 0..hist {
@@ -42,6 +61,7 @@ pub fn search(seed: u64, full: bool, rt: &tokio::runtime::Runtime) -> SearchResu
 
 pub fn replay(case: &[&str], rt: &tokio::runtime::Runtime) -> (bool, String) {
     let mut out = vec![];
+    if case[0] == "retry" { run_retry(case[1], rt, &mut out); return match out.first() { Some(f) => (true, format!("{}: expected {}, observed {}", f.input, f.expected, f.observed)), None => (false, "holds".into()) }; }
     run(case[0], case[1].parse().unwrap(), case[2].parse().unwrap(), case[3].parse().unwrap(), case[4] == "1", rt, &mut out);
     match out.first() { Some(f) => (true, format!("{}: expected {}, observed {}", f.input, f.expected, f.observed)), None => (false, "holds".into()) }
 }
